@@ -84,8 +84,13 @@ def check(case, viol):
     fmt = case['format']
     thr = case['thresholds']
     boxes_in = [tuple(to_format(b[:6], fmt, shape)) + (b[6],) for b in case['bboxes']]
+    # a top-level item may be a container holding the transform as its only, always-firing child: the pipeline is
+    # the same one, and the per-transform check runs after the container as it does after the bare transform
+    wrap = case.get('wrap') or [None] * len(specs)
+    run_specs = [sp if w is None else {'op': w, 'children': [sp], 'args': dict({'p': 1.0}, **({'n': 1} if w == 'SomeOf' else {}))}
+                 for sp, w in zip(specs, wrap)]
     try:
-        res = S.run(specs, shape, case['seed'], boxes=boxes_in, bbox_format=fmt,
+        res = S.run(run_specs, shape, case['seed'], boxes=boxes_in, bbox_format=fmt,
                     bbox_kw=dict(thr, check_each_transform=case['each']))
     except Exception as e:  # noqa
         viol.append({'site': 'C04:raises:%s' % '+'.join(s['cls'] for s in specs), 'case': case,
@@ -137,7 +142,10 @@ def check_expected(case, viol, res, shape, specs, fmt, thr, exact):
                      'expected': [list(map(float, e[:6])) + [e[6]] for e in exp]})
 
 
-def gen_case(rng, force_choice=None, force_each=None):
+CONTAINERS = ['Sequential', 'OneOf', 'SomeOf', 'Compose']
+
+
+def gen_case(rng, force_choice=None, force_each=None, force_wrap=None):
     dims = rng.sample([4, 8, 16, 2], 3) if rng.random() < 0.6 else rng.sample([4, 6, 8, 10, 12, 16], 3)
     if force_choice is not None:
         dims = rng.sample([6, 10, 12, 16], 3)      # pairwise different extents: an axis confusion shows
@@ -163,6 +171,9 @@ def gen_case(rng, force_choice=None, force_each=None):
     if rng.random() < 0.5:
         specs.append(rng.choice([S.L('HorizontalFlip'), S.L('Transpose'), S.L('SliceFlip'),
                                  S.L('PadIfNeeded', min_height=H + 2, min_width=W + 1, min_depth=D + 3)]))
+    if force_wrap is not None:
+        # the crop inside a container, then a transform that brings the cut-off part of the frame back
+        specs = [specs[0], S.L('PadIfNeeded', min_height=H + 2, min_width=W + 1, min_depth=D + 3)]
     thr = {'min_planar_area': 0.0, 'min_volume': 0.0, 'min_area_visibility': 0.0, 'min_volume_visibility': 0.0,
            'min_width': 0.0, 'min_height': 0.0, 'min_depth': 0.0}
     # boundary-equal thresholds: taken from the clipped remainder of one of the boxes
@@ -206,7 +217,10 @@ def gen_case(rng, force_choice=None, force_each=None):
         thr['min_volume_visibility'] = rng.choice([0.25, 0.5, 0.75])
     elif choice == 'above':
         thr['min_width'] = cw + 0.5
-    return {'shape': [H, W, D], 'bboxes': boxes, 'pipeline': specs, 'format': rng.choice(FORMATS),
+    wrap = [rng.choice(CONTAINERS) if rng.random() < 0.3 else None for _ in specs]
+    if force_wrap is not None:
+        wrap = [force_wrap] + [None] * (len(specs) - 1)
+    return {'shape': [H, W, D], 'bboxes': boxes, 'pipeline': specs, 'wrap': wrap, 'format': rng.choice(FORMATS),
             'thresholds': thr, 'each': (rng.random() < 0.5) if force_each is None else force_each, 'seed': R.pick_seed(rng)}
 
 
@@ -252,8 +266,15 @@ def run(seed=0, tier='quick', hints=None, broken=False):
     viol, seen = [], set()
     # every kind of well-conditioned size threshold under both filtering schedules, a few times each
     forced = [(c, e) for c in ('mid-width', 'mid-height', 'mid-depth', 'all-three') for e in (True, False)] * (6 if tier == 'quick' else 30)
-    for i in range(n + len(forced)):
-        case = gen_case(rng) if i < n else gen_forced(rng, *forced[i - n])
+    wrapped = [(k, ch) for k in CONTAINERS for ch in ('none', 'vvis', 'avis')] * (2 if tier == 'quick' else 20)
+    for i in range(n + len(forced) + len(wrapped)):
+        if i < n:
+            case = gen_case(rng)
+        elif i < n + len(forced):
+            case = gen_forced(rng, *forced[i - n])
+        else:
+            k, ch = wrapped[i - n - len(forced)]
+            case = gen_case(rng, force_choice=ch, force_each=True, force_wrap=k)
         check(case, viol)
         seen.add((tuple(case['shape']), case['format'], case['each'], tuple(sorted(case['thresholds'].items())),
                   tuple(s['cls'] for s in case['pipeline'])))
